@@ -1173,3 +1173,199 @@ def check_c10_full(pid, replay=None):
 
 
 REGISTRY["C10"] = check_c10_full
+
+
+# ============================================================================================== C07 robustness
+
+MUT_OPS = ["trunc", "hdrlen", "iel", "iet", "drop", "dup", "ieb", "ieb0", "ieb23", "byte", "seid", "mt", "ver", "rand"]
+SDFS = ["permit out ip from any to assigned", "permit in 17 from 10.1.2.0/24 80-90 to 8.8.8.8 53", "permit out 6 from any 1,2,3 to 10.0.0.1/8"]
+
+
+def c07_mutation(rng):
+    o = rng.choice(MUT_OPS + ["iel", "ieb", "trunc", "drop", "ieb0", "ieb0", "ieb0", "ieb23", "ieb23"])
+    m = {"op": o, "k": rng.randrange(0, 40), "v": 0, "s": "0"}
+    if o == "trunc":
+        m["v"] = rng.choice([0, 1, 2, 3])
+        m["k"] = rng.randrange(1, 200) if m["v"] == 0 else rng.randrange(0, 40)
+    elif o == "hdrlen":
+        m["v"] = rng.choice([0, 1, 3, 4, 12, 100, 0xffff, rng.randrange(65536)])
+    elif o == "iel":
+        m["v"] = rng.choice([-1, -2, -3, -4, 1, 2, 255, 1000])
+    elif o == "iet":
+        m["v"] = rng.choice([0, 0x7fff, 0xffff, 32768, 1, 2, 3, 20, 21, 23, 44, 56, 60, 84, 93, rng.randrange(65536)])
+    elif o == "ieb":
+        m["v"] = rng.randrange(0, 16) * 256 + rng.choice([0, 0xff, 1, 2, 4, 8, 16, 0x80, rng.randrange(256)])
+    elif o == "ieb0":
+        m["v"] = rng.choice([0xff, 0x7f, 0x40, 0x80, 0x3f, 0x1f, 0, rng.randrange(256)])
+    elif o == "ieb23":
+        m["v"] = rng.choice([0xffff, 0x7fff, 0x0100, 0, rng.randrange(65536)])
+    elif o == "byte":
+        m["k"] = rng.randrange(0, 400)
+        m["v"] = rng.choice([0, 0xff, rng.randrange(256)])
+    elif o == "seid":
+        m["s"] = str(rng.choice([0, 2 ** 63, 2 ** 64 - 1, 2 ** 32, 999, rng.randrange(2 ** 64)]))
+    elif o == "mt":
+        m["v"] = rng.choice([0, 1, 3, 5, 7, 8, 9, 12, 50, 51, 52, 53, 54, 55, 56, 57, 99, 255])
+    elif o == "ver":
+        m["v"] = rng.choice([0, 2, 7])
+    elif o == "rand":
+        m["k"] = rng.choice([1, 2, 7, 8, 15, 16, 17, 100, 1500, 9000, 65000])
+        m["v"] = rng.randrange(1 << 30)
+    return m
+
+
+def c07_rich_ops(rng):
+    """IEs that make the gtp5g driver decode something (PDI with SDF filter, forwarding parameters, QER, URR, BAR)"""
+    O = gen_l1.op
+    return [O("create", "far", 1, aa=rng.choice([2, 12]), teid=rng.randrange(1, 2 ** 31), gnb=1), O("create", "qer", 1, qfi=9),
+            O("create", "urr", 1, meth=2, minfo=16), O("create", "bar", 1),
+            O("create", "pdr", 1, far=1, qers=[1], urrs=[1], ueip=True, sdf=rng.choice(SDFS))]
+
+
+def c07_script(sid, prefix, naccepted, rng, nmut, maxrt=1):
+    E = gen_l1.ev
+    evs = [E("init", maxrt=maxrt)] + [dict(e) for e in prefix]
+    seq = 1000
+    by = naccepted + 1       # ordinal of the bystander session
+    evs.append(E("assoc", peer="p3", seq=seq, node="n3"))
+    evs.append(E("est", peer="p3", seq=seq + 1, node="n3", cp="555", ops=c07_rich_ops(rng)))
+    evs.append(E("assoc", peer="p4", seq=seq + 2, node="n4"))
+    evs.append(E("est", peer="p4", seq=seq + 3, node="n4", cp="777", ops=c07_rich_ops(rng)))
+    victim = by + 1
+    seq += 10
+    for j in range(nmut):
+        base = rng.choice(["est", "mod", "mod", "mod", "del", "assoc", "hb", "rptrsp"])
+        e = E("mut", peer=rng.choice(["p4", "p1", "q1"]), seq=seq, mbase=base, mut=c07_mutation(rng))
+        seq += 1
+        if base == "est":
+            e.update(node="n4", cp=str(rng.choice([1, 777, 2 ** 64 - 1])), ops=c07_rich_ops(rng))
+        elif base == "mod":
+            ops = rng.choice([c07_rich_ops(rng),
+                              [gen_l1.op("update", "far", 1, aa=2, teid=5, gnb=1), gen_l1.op("update", "pdr", 1, far=1, urrs=[1], sdf=rng.choice(SDFS))],
+                              [gen_l1.op("update", "urr", 1, meth=3, minfo=0), gen_l1.op("update", "qer", 1), gen_l1.op("query", "urr", 1)],
+                              [gen_l1.op("remove", "pdr", 1), gen_l1.op("remove", "urr", 1)]])
+            e.update(sref=rng.choice([victim, victim, 0]), seid="" if rng.random() < 0.8 else str(rng.choice([0, 99, 2 ** 64 - 1])), ops=ops)
+        elif base == "del":
+            e.update(sref=victim if rng.random() < 0.5 else 0, seid=str(rng.choice([0, 98, 2 ** 63])))
+        elif base == "assoc":
+            e.update(node=rng.choice(["n4", "n1", "n2"]))
+        elif base == "rptrsp":
+            e.update(seid=rng.choice(["0", "777", "5"]), seq=rng.randrange(0, 4))
+        evs.append(e)
+        if j % 5 == 4:
+            evs.append(E("hb", peer="p3", seq=seq, tag="probe-hb"))
+            seq += 1
+    evs.append(E("hb", peer="p3", seq=seq, tag="probe-hb"))
+    evs.append(E("mod", peer="p3", seq=seq + 1, sref=by, ops=[gen_l1.op("query", "urr", 1)], tag="probe-mod:n3"))
+    evs.append(E("hb", peer="q2", seq=seq + 2, tag="probe-hb"))
+    return {"id": sid, "events": evs}
+
+
+def run_alive(binary, scripts, k0, name, test, nproc=8):
+    nproc = max(1, min(nproc, len(scripts)))
+    chunks = [scripts[i::nproc] for i in range(nproc)]
+    byid = {s["id"]: s for s in scripts}
+
+    def work(i):
+        ch = chunks[i]
+        if test == "TestVerifL2":
+            import gen_l2
+            ch = [{"id": s["id"], "events": [gen_l2.x(dict(e)) for e in s["events"]]} for s in ch]
+        fout, info = vlib.run_l1(binary, ch, k0 + i, "%s-%d" % (name, i), test=test, timeout=2400)
+        lines = vlib.read_ndjson(fout)
+        viol = []
+        if info["rc"] != 0:
+            if "INFRA:" in info["tail"]:
+                raise Infra("executor: " + info["tail"][-1500:])
+            # the process died: a fault nobody recovered (or a hang) - the script it was working on is the finding
+            tr = lines[-1]["tr"] if lines else ch[0]["id"]
+            viol.append({"tr": tr, "i": lines[-1]["i"] + 1 if lines else 0, "tags": ["C07:the UPF process died: " + info["tail"][-400:].replace("\n", " | ")],
+                         "line": lines[-1] if lines else None})
+        if lines:
+            doc = vlib.tlc_trace(fout, "%s-%d" % (name, i), spec="Trace_Alive", modules=())
+            idx = {(ln["tr"], ln["i"]): ln for ln in lines}
+            viol += [{"tr": v["tr"], "i": v["i"], "tags": sorted(v["tags"]), "line": idx.get((v["tr"], v["i"]))} for v in doc["viol"]]
+        return viol, len(lines), len({ln["tr"] for ln in lines})
+    viols, nl, nt = [], 0, 0
+    with cf.ThreadPoolExecutor(nproc) as ex:
+        for v, a, b in ex.map(work, range(nproc)):
+            viols += v
+            nl += a
+            nt += b
+    for v in viols:
+        v["script"] = byid.get(v["tr"])
+    return viols, nl, nt
+
+
+def check_c07(pid, replay=None):
+    import random
+    t0 = time.time()
+    thorough = vlib.tier() == "thorough"
+    seed = vlib.seed()
+    binary = vlib.build_test_binary("internal/pfcp")
+    if replay:
+        with open(replay) as fh:
+            doc = json.load(fh)
+        test = "TestVerifL2" if "L2" in doc.get("note", "") else "TestVerifL1"
+        viols, _, _ = run_alive(binary, [doc["script"]], kbase(pid) + 9, "c07r", test, nproc=1)
+        for v in viols:
+            log("line %d: %s" % (v["i"], v["tags"]))
+        if any(t.startswith("C07:") for v in viols for t in v["tags"]):
+            print("VIOLATION property=%s replay=%s" % (pid, replay))
+            return 1
+        log("replay: no verdict for C07 on the current tree")
+        return 0
+    # valid prefixes: every edge of the bounded life-cycle model is a state x position in which garbage arrives
+    mc = mc_generate("Lifecycle", 3, {"maxrt": 1, "txseq0": 0}, 1, 0, pid)
+    rng = random.Random(seed)
+    edges = mc["edges"]
+    npre = 2500 if thorough else 160
+    pre = rng.sample(edges, min(npre, len(edges)))
+    nmut = 40 if thorough else 25
+    scripts = []
+    for i, h in enumerate(pre):
+        nacc = sum(1 for e in h if e["t"] == "est" and e.get("tag") == "accepted")
+        scripts.append(c07_script("gb-%d" % i, h, nacc, rng, nmut))
+    log("MC Lifecycle: %d states, %d edges; %d prefixes x %d mutated datagrams each, on the model data plane (L1) and on the gtp5g driver over the simulated kernel (L2)" % (
+        mc["distinct"], mc["edges_printed"], len(scripts), nmut))
+    v1, l1, t1 = run_alive(binary, scripts, kbase(pid), "c07-l1", "TestVerifL1")
+    half = scripts[: max(20, len(scripts) // 2)]
+    v2, l2, t2 = run_alive(binary, half, kbase(pid), "c07-l2", "TestVerifL2")
+    for v in v1:
+        v["note"] = "L1"
+    for v in v2:
+        v["note"] = "L2"
+    viols = v1 + v2
+    known = vlib.load_known()
+    n = 0
+    seen = set()
+    for v in viols:
+        if not any(t.startswith("C07:") for t in v["tags"]):
+            continue
+        kf = match_known(known, pid, v)
+        if kf:
+            if kf["id"] not in seen:
+                seen.add(kf["id"])
+                print("KNOWN-FINDING: property=%s %s" % (pid, kf["what"]))
+            continue
+        n += 1
+        if n <= 5:
+            sc = v["script"] or {"id": v["tr"], "events": []}
+            doc = {"property": pid, "kind": "alive", "tags": v["tags"], "trace": v["tr"], "line": v["i"], "note": v["note"],
+                   "script": {"id": sc["id"], "events": sc["events"][:v["i"] + 1] if v["i"] else sc["events"]}, "recorded": v["line"]}
+            path = vlib.save_replay(pid, "%s-%s-%d" % (v["note"], v["tr"], v["i"]), doc)
+            log("  rejected (%s): %s" % (v["note"], v["tags"][0][:300]))
+            print("VIOLATION property=%s replay=%s" % (pid, path))
+    nmsg = sum(1 for s in scripts for e in s["events"] if e["t"] == "mut")
+    cov = {"states": mc["distinct"], "transitions": mc["generated"], "traces_validated_against_impl": t1 + t2,
+           "samples": [brief(scripts[0])[-8:]], "prefixes": len(scripts), "mutated_datagrams_l1": nmsg,
+           "mutated_datagrams_l2": sum(1 for s in half for e in s["events"] if e["t"] == "mut"), "events_executed_on_impl": l1 + l2,
+           "mutation_operators": MUT_OPS, "exhaustive": False,
+           "checker_cmd": "tlc MC_Upf.tla (prefixes); tlc Trace_Alive.tla per recorded chunk"}
+    vlib.write_evidence(pid, "model_checking", cov, time.time() - t0, n, [
+        "bounded exploration of an unbounded input space: TLC contributes the valid prefixes (state x position) and the oracle; the byte-level search is seeded mutation",
+        "a datagram taints the session its header SEID names and the node its node-id IE names; bystanders are probed only if untainted"])
+    return 1 if n else 0
+
+
+REGISTRY["C07"] = check_c07
